@@ -34,6 +34,7 @@ type State struct {
 	fdepth   int               // number of forks taken on this path
 	choices  string            // branch choices taken so far ("0"/"1" per fork)
 	lastRes  map[string]Val    // first result of the last returned call, by source-level callee name (ghost lastresult)
+	rets     map[string]int    // number of calls that returned normally, by callee name (ghost returns)
 }
 
 type dirtyRec struct {
@@ -84,6 +85,12 @@ func (s *State) clone() *State {
 	n.calls = make(map[string]int, len(s.calls))
 	for k, v := range s.calls {
 		n.calls[k] = v
+	}
+	if len(s.rets) > 0 {
+		n.rets = make(map[string]int, len(s.rets))
+		for k, v := range s.rets {
+			n.rets[k] = v
+		}
 	}
 	if len(s.lastRes) > 0 {
 		n.lastRes = make(map[string]Val, len(s.lastRes))
@@ -216,7 +223,8 @@ type Exec struct {
 	curFnName     string
 	epochCtr      int
 	instDone      map[string]int
-	freeCells     map[string]*Cell // captured variables of a closure verified stand-alone
+	heapSort      map[string]string // heap class -> SMT sort of its array (for re-declaring after a havoc)
+	freeCells     map[string]*Cell  // captured variables of a closure verified stand-alone
 	freeCellTypes map[*Cell]types.Type
 	topFn         *ssa.Function // the function under verification
 	selfApply     bool          // applying the contract of the closure under verification to a recursive call of itself
@@ -342,6 +350,10 @@ func (x *Exec) heapArr(st *State, class, sort string) string {
 	}
 	name := fmt.Sprintf("H|%s|e%d", class, ep)
 	x.declare(name, sort)
+	if x.heapSort == nil {
+		x.heapSort = map[string]string{}
+	}
+	x.heapSort[class] = sort
 	st.heap[class] = smtSym(name)
 	return st.heap[class]
 }
@@ -350,10 +362,37 @@ func (x *Exec) havocHeap(st *State, why string) {
 	if os.Getenv("GOVC_DEBUG") != "" {
 		fmt.Fprintln(os.Stderr, "HAVOC heap:", why)
 	}
+	// opt callbacks.keep=<class-substr>|...: a user callback cannot reach the objects of these classes that the
+	// function under verification allocated itself (they never escape to it): such objects keep their contents
+	var kept map[string]string
+	if x.fc != nil && x.fc.Opts["callbacks.keep"] != "" && (strings.HasPrefix(why, "callback") || strings.HasPrefix(why, "invoke")) && x.entryAllocW != "" {
+		var classes []string
+		for c := range x.heapSort {
+			classes = append(classes, c)
+		}
+		sort.Strings(classes)
+		for _, c := range classes {
+			for _, pat := range strings.Split(x.fc.Opts["callbacks.keep"], "|") {
+				if pat = strings.TrimSpace(pat); pat != "" && strings.Contains(c, pat) {
+					if kept == nil {
+						kept = map[string]string{}
+					}
+					kept[c] = x.heapArr(st, c, x.heapSort[c]) // the array as it is now (materialised if untouched so far)
+				}
+			}
+		}
+	}
 	x.epochCtr++
 	st.epoch = x.epochCtr
 	st.heap = map[string]string{}
 	st.dirty = nil
+	for c, old := range kept {
+		nt := x.heapArr(st, c, x.heapSort[c])
+		qvCounter++
+		q := fmt.Sprintf("q!%d", qvCounter)
+		x.assume(fmt.Sprintf("(forall ((%s Int)) (=> (>= %s %s) (= (select %s %s) (select %s %s))))", q, q, x.entryAllocW, nt, q, old, q))
+		x.note("assumed (opt callbacks.keep): user callbacks cannot reach the objects of heap class " + c + " that this function allocated")
+	}
 	// allocation watermark moves: objects allocated by the callee are below the new one
 	nw := smtSym(x.fresh("allocW", "Int"))
 	x.assume("(>= " + nw + " (+ " + st.allocW + " " + strconv.Itoa(st.nAlloc) + "))")
@@ -1238,6 +1277,7 @@ func (x *Exec) instrs(st *State, fr *Frame, b *ssa.BasicBlock, i int, prev *ssa.
 		case *ssa.Call:
 			x.doCall(st, fr, in, &in.Call, func(st2 *State, o Outcome) {
 				if o.Panic {
+					x.loopNoPanic(st2, fr, b, in)
 					x.propagatePanic(st2, fr, o, k)
 					return
 				}
@@ -2364,4 +2404,20 @@ func strOrder(op token.Token, a, b Str) (string, bool) {
 		return "(not " + lt(a, b) + ")", true
 	}
 	return "", false
+}
+
+// loopNoPanic: a call in block b of frame fr exits by panic; every loop of fr that contains b and carries a
+// "loop N nopanic" clause is left by that panic.
+func (x *Exec) loopNoPanic(st *State, fr *Frame, b *ssa.BasicBlock, in ssa.Instruction) {
+	if fr.fc == nil || fr.loops == nil {
+		return
+	}
+	for _, lp := range fr.loops.list {
+		lc := fr.fc.Loops[lp.ordinal]
+		if lc == nil || lc.NoPanic == nil || !lp.blocks[b] {
+			continue
+		}
+		o := x.oblig(fmt.Sprintf("%s/loop%d.nopanic", x.fnDisplay(fr), lp.ordinal), "loop-nopanic", x.propsFor(fr, lc.NoPanic), in.Pos(), lc.NoPanic.Text)
+		x.check(st, o, "false")
+	}
 }
